@@ -252,7 +252,11 @@ def parseVP8XChunks (fuel : Nat) (st : State) (animChunks : Nat) (buf : Bytes) :
       let isAnim := st.features.hasAnim
       if fourcc = ccVP8X then .err .invalidChunk
       else if fourcc = ccANIM then
-        if payloadSize < animChunkSize then .err .invalidChunk
+        if !isAnim then
+          -- ignored when the VP8X animation flag is not set
+          let rest ← sliceFrom buf chunkTotal
+          parseVP8XChunks fuel st animChunks rest
+        else if payloadSize < animChunkSize then .err .invalidChunk
         else
           let st := { st with features := { st.features with
                         bgColor := le32 payload 0, loopCount := le16 payload 4 } }
@@ -312,7 +316,7 @@ def parseVP8X (buf : Bytes) : R State := do
         if cw * ch ≥ maxImageArea then .err .invalidImage
         else
           let pos := chunkHeaderSize + padded
-          let feat := { feat with loopCount := 1, bgColor := 0xFFFFFFFF }
+          let feat := { feat with loopCount := 0, bgColor := 0xFFFFFFFF }
           let rest ← sliceFrom buf pos
           parseVP8XChunks (rest.length + 1) { features := feat } 0 rest
 
